@@ -1,7 +1,7 @@
 #!/bin/bash
 # usage: try_mutant.sh <patch.diff> <ID> [tier] [extra args] — apply the change to a scratch worktree of /repo's
 # HEAD (never to /repo itself), run the check against it with VERIF_REPO, and clean up.
-P="$1"; ID="$2"; TIER="${3:-quick}"; shift 3 2>/dev/null
+P="$(realpath "$1")"; ID="$2"; TIER="${3:-quick}"; shift 3 2>/dev/null
 WT=${MUT_WT:-/tmp/verif-mutwt}; LOG=${MUT_LOG:-/tmp/mutant.log}
 if [ ! -d "$WT" ]; then git -C /repo worktree add --detach "$WT" HEAD >/dev/null 2>&1 || { echo "cannot create worktree"; exit 3; }; fi
 git -C "$WT" checkout -q --detach main 2>/dev/null; git -C "$WT" checkout -q -- . ; git -C "$WT" clean -qfd
